@@ -29,7 +29,7 @@ func BarrierBeforeAppend(c *core.Ctx, s *Sender, rule string, strict bool) {
 		c.Undecidedf(rule, "shape", s.Fn.Decl.Pos(), "no `state, flush = barrierStatus(item.Cmd, state)` in sendTargetCommand, or the flush constants are missing")
 		return
 	}
-	call := ast.Unparen(s.Barrier.Rhs[0]).(*ast.CallExpr)
+	call := s.BarrierCall
 	okArgs := len(call.Args) == 2 && isFieldOf(info, call.Args[0], s.Item, "Cmd") && IsObj(info, s.Bs)(call.Args[1])
 	if okArgs {
 		c.Okf(rule, "automaton-input", call.Pos(), "barrierStatus is fed the received command's name and the previous state, and its result becomes the state")
@@ -45,7 +45,7 @@ func BarrierBeforeAppend(c *core.Ctx, s *Sender, rule string, strict bool) {
 	}
 	fsWrite := func(n ast.Node) bool {
 		as, ok := n.(*ast.AssignStmt)
-		if !ok || n == ast.Node(s.Barrier) {
+		if !ok || s.BarrierChain[n] {
 			return false
 		}
 		for _, l := range as.Lhs {
@@ -190,6 +190,33 @@ func Automaton(c *core.Ctx, rule string, strict bool) {
 			return cell{}, fmt.Errorf("flush result is neither flushStatusYes nor flushStatusNo")
 		}
 		return cell{next: constant.StringVal(res[0]), flush: f}, nil
+	}
+	// a dry run loads the other package-level tables barrierStatus consults; their keys are command classes too
+	for _, sn := range names {
+		for _, cmd := range cmds {
+			run(st[sn], cmd)
+		}
+	}
+	extra := map[string]bool{}
+	for _, g := range globals {
+		for k := range g.m {
+			extra[k] = true
+		}
+		for k := range g.mm {
+			extra[k] = true
+		}
+	}
+	for _, k := range cmds {
+		delete(extra, k)
+	}
+	if len(extra) > 0 {
+		cmds = cmds[:len(cmds)-1]
+		var more []string
+		for k := range extra {
+			more = append(more, k)
+		}
+		sort.Strings(more)
+		cmds = append(append(cmds, more...), "\x00other")
 	}
 	dropped := func(next string) bool { return next == HS || next == HE }
 	for _, sn := range names {
